@@ -320,3 +320,6 @@ def extra(tier, seed, ctx):
                 fault_outcomes=outcomes, known_lines=known_lines, suppressed_in_enumeration=suppressed,
                 stdio_calls_per_workload={wname(w): baseline(w)["total"] for w in range(NALL)},
                 exhaustive=True)
+
+
+RULE += (" " + 'Workload sd_recompress: a dataset stored uncompressed in one session is given a compression in the next one and rewritten.')
